@@ -701,7 +701,7 @@ PROPS["C06"]["rule"] += " Enumeration bursts-on-every-tick: crowds of 17, 40, 60
 PROPS["C12"]["rule"] += " Matrix also: the same inconsistency two and three times over (k RDNSS / DNSSL options on both sides each differing in the same way; k repetitions of one of our routes in the received RA): every one is logged and counted."
 PROPS["C20"]["rule"] += " Enumeration serve-many-tasks-one-not-ready: 63, 64, 65, 66, 128, 129, 130 tasks of which the 1st, 33rd, 64th, 65th or last is never (or 3 s late) ready."
 
-PROPS["C17"]["rule"] += " The overlapping requests are staggered and the fake lookups slowed down in real time (40 / 80 us apart, 60 us per lookup; the bubble's clock stands still meanwhile), so that an implementation which holds a lock across a lookup serialises them instead of wedging the bubble. A probe during which any interface is being (re-)initialised - also long after the link event that caused it - is not judged."
+PROPS["C17"]["rule"] += " The overlapping requests are staggered and the fake lookups slowed down by yielding the processor (the bubble's clock stands still meanwhile), so that an implementation which holds a lock across a lookup serialises them instead of wedging the bubble. A probe during which any interface is being (re-)initialised - also long after the link event that caused it - is not judged."
 
 PROPS["C17"]["rule"] += " One observed failure on its own (33 cases): a hardware address whose slice header has a nil pointer and a length of 0..32 - what a request racing with Prepare was once seen to read - must not make Apply build an option that panics when rendered or fails to encode."
 
